@@ -63,7 +63,8 @@ CritMag(nu, kind, li) ==
     ELSE IF nu > LastT THEN <<z[1], MagEnc(TRow(LastT, OneKind(kind), li))[2]>>
     ELSE IF nu >= SwitchLo THEN <<z[1], MagEnc(TRow(nu, OneKind(kind), li))[2]>>
     ELSE MagEnc(TRow(nu, OneKind(kind), li))
-CritTolExp(nu) == IF nu > LastT THEN TqExp(LastT) ELSE TqExp(nu)
+\* beyond the zone in which either distribution is admitted the critical value is the normal quantile
+CritTolExp(nu) == IF nu > SwitchHi THEN ZqExp ELSE IF nu > LastT THEN TqExp(LastT) ELSE TqExp(nu)
 CritKnown(nu) == nu > LastT \/ HasNu(nu)
 CSign(kind, li) == CritSign(OneKind(kind), li)
 
@@ -111,12 +112,12 @@ VarLikeOK(st, x, prec, f) ==
 -----------------------------------------------------------------------------
 (* unpaired comparison: two samples a, b *)
 \* Da = na^2 (na - 1); se^2 = Va/Da + Vb/Db; E = b na nb - S1a nb + S1b na  ( = na nb * (b - (xa - xb)) )
-UDa(st) == st.n * st.n * (st.n - 1)       \* n <= 1000: fits
-UNum(sa, sb) == DyAdd(DyMulInt(sa.v, UDa(sb)), DyMulInt(sb.v, UDa(sa)))     \* se^2 * Da Db
+UDa(st) == DyMulInt(DyMulInt(DyOfInt(st.n), st.n), st.n - 1)       \* dyadic: n up to 10^6 and beyond
+UNum(sa, sb) == DyAdd(DyMul(sa.v, UDa(sb)), DyMul(sb.v, UDa(sa)))     \* se^2 * Da Db
 \* effective degrees of freedom  nu = P / Q - 2
-UNuP(sa, sb) == DyMulInt(DySq(UNum(sa, sb)), (sa.n + 1) * (sb.n + 1))
-UNuQ(sa, sb) == DyAdd(DyMulInt(DySq(DyMulInt(sa.v, UDa(sb))), sb.n + 1),
-                      DyMulInt(DySq(DyMulInt(sb.v, UDa(sa))), sa.n + 1))
+UNuP(sa, sb) == DyMulInt(DyMulInt(DySq(UNum(sa, sb)), sa.n + 1), sb.n + 1)
+UNuQ(sa, sb) == DyAdd(DyMulInt(DySq(DyMul(sa.v, UDa(sb))), sb.n + 1),
+                      DyMulInt(DySq(DyMul(sb.v, UDa(sa))), sa.n + 1))
 \* floor(P/Q) as an integer (P, Q > 0)
 Ratiofloor(P, Q) == LET e == Min2(DyE(P), DyE(Q)) IN BigToInt(BigDivFloor(DyAt(P, e), DyAt(Q, e)))
 RatioIsInt(P, Q, k) == DyEq(P, DyMulInt(Q, k))
@@ -128,11 +129,11 @@ UnpairedBoundOK(sa, sb, b, which, kind, li, prec) ==
         nuf == f - 2
         nuc == IF RatioIsInt(P, Q, f) THEN nuf ELSE nuf + 1
         sg == CSign(kind, li)
-        E  == DyAdd(DySub(DyMulInt(b, sa.n * sb.n), DyMulInt(sa.s1, sb.n)), DyMulInt(sb.s1, sa.n))
+        E  == DyAdd(DySub(DyMulInt(DyMulInt(b, sa.n), sb.n), DyMulInt(sa.s1, sb.n)), DyMulInt(sb.s1, sa.n))
         aE == DyAbs(E)
         \* t quantiles decrease with nu: c in [TQ(ceil nu).lo, TQ(floor nu).hi]
         cm == <<MagEnc(TRow(nuc, OneKind(kind), li))[1], MagEnc(TRow(nuf, OneKind(kind), li))[2]>>
-        DD == DyMulInt(DyMulInt(DyOfInt(1), UDa(sa)), UDa(sb))              \* Da Db
+        DD == DyMul(UDa(sa), UDa(sb))              \* Da Db
         N2 == DySq(DyMulInt(DyOfInt(sa.n), sb.n))                          \* (na nb)^2
         S  == UNum(sa, sb)
         \* E^2 Da Db = c^2 S (na nb)^2 ; relative tolerance 2^-20 on E (well conditioned data, f64)
@@ -153,10 +154,10 @@ DesignedNuOK(sa, sb, pi) ==
     IN DyEq(DyMul(P, Dy(nd[2], 0)), DyMul(Q, Dy(BigAdd(nd[1], BigMulInt(nd[2], 2)), 0)))
 DesignedBoundOK(sa, sb, b, which, kind, li, prec, pi) ==
     LET sg == CSign(kind, li)
-        E  == DyAdd(DySub(DyMulInt(b, sa.n * sb.n), DyMulInt(sa.s1, sb.n)), DyMulInt(sb.s1, sa.n))
+        E  == DyAdd(DySub(DyMulInt(DyMulInt(b, sa.n), sb.n), DyMulInt(sa.s1, sb.n)), DyMulInt(sb.s1, sa.n))
         aE == DyAbs(E)
         cm == MagEnc(XRow(pi, OneKind(kind), li))
-        DD == DyMulInt(DyMulInt(DyOfInt(1), UDa(sa)), UDa(sb))
+        DD == DyMul(UDa(sa), UDa(sb))
         N2 == DySq(DyMulInt(DyOfInt(sa.n), sb.n))
         S  == UNum(sa, sb)
         tol == DyAdd(DyShift(aE, -26),
